@@ -4,6 +4,6 @@ CONSTANTS
   MaxLen = 6
   Thresholds = {-1, 0, 1, 2, 3, 4}
   AnswerDelays = {0, 1}
-INVARIANTS TypeOK InvAccuracy InvTiming InvSilentStop InvCounter InvCompleteness InvFinal
+INVARIANTS TypeOK InvAccuracy InvTiming InvSilentStop InvCounter InvCompleteness InvFinal InvGoneAtClose InvNoTickAfterUser
 PROPERTIES NoPingAfterStop Terminates
 CHECK_DEADLOCK FALSE
